@@ -636,6 +636,12 @@ class Interp:
                 v = self.eval_in_module(mast.assigns[name], mod)
                 mod.globals[name] = v
                 return v
+        if mast is not None:
+            for star in mast.star_imports:
+                if frontend.module_path(star) or star in self.cfg.module_overrides:
+                    sm = self.module(star)
+                    if isinstance(sm, ModuleValue) and self._has_global(sm, name):
+                        return self.global_lookup(sm, name)
         if name in self.cfg.builtins:
             return self.cfg.builtins[name]
         if name in _PY_EXC:
@@ -678,6 +684,10 @@ class Interp:
             return self.call(f.func, args, kwargs)
         if isinstance(f, type) and issubclass(f, BaseException):
             return ExcInst(f, args)
+        if isinstance(f, SObj) and isinstance(f.cls, ClassValue):
+            c, _ = f.cls.lookup(self, "__call__")
+            if c is not _MISSING:
+                return self.call(c, [f] + list(args), kwargs)
         if callable(f):
             self.models_used.add(getattr(f, "__qualname__", repr(f)))
             if getattr(f, "_wants_interp", False):
@@ -1941,6 +1951,9 @@ def explore(harness: Callable[[Ctx], Any], max_paths=4000) -> List[PathResult]:
             results.append(PathResult(ctx, "cut", None, None))
         except Unsupported as u:
             results.append(PathResult(ctx, "unsupported", str(u), None))
+        except SymRaise as sr:
+            # an exception of the interpreted program that the harness did not expect
+            results.append(PathResult(ctx, "unsupported", f"uncaught {sr.exc!r} escaped the harness", None))
         work.extend(ctx.new_branches)
         if len(results) > max_paths:
             raise Unsupported(f"more than {max_paths} paths")
